@@ -11,6 +11,10 @@ Three outcomes per function (policy of DESIGN 11.5c):
  * definitely deviates - every returned term is *closed* (parameters, fields, constants, constructors, builtin
                          arithmetic, casts and calls of functions that occur in some reference term of the table) and
                          the row -> term map differs from the reference: reported;
+ * strict pins         - plain lookups / projections (`strict` in the table): a closed term over ANY vocabulary that
+                         differs from the reference is reported (there is no second way to write `map.get(key)`);
+ * closed-world pins   - (`closed_world`) the function must be written in the reference form or one of the reviewed
+                         alternative forms (`alt`, e.g. the explicit accumulation loop); every other shape is reported;
  * undecided           - a returned term goes through a multiply-assigned local, a closure that cannot be read, or a
                          function outside the table's vocabulary (a rewrite with other means): evidence note, no alarm.
 A missing function fails closed (anchor gone), unless engine/aliases re-matched it.
@@ -23,6 +27,9 @@ from engine.guards import Inliner
 _PLUMB = ("std::clone::Clone::clone", "std::option::Option::cloned", "std::option::Option::copied", "std::option::Option::as_ref",
           "std::convert::Into::into", "std::convert::From::from", "std::ops::Deref::deref", "std::borrow::Borrow::borrow",
           "std::convert::AsRef::as_ref", "std::sync::Arc::new", "std::iter::IntoIterator::into_iter")
+
+
+_MAPS = ("std::option::Option::map", "std::result::Result::map", "std::iter::Iterator::map")
 
 
 def _short(q):
@@ -61,6 +68,15 @@ class Canon:
         if h == "call":
             if t[1] in _PLUMB and len(t[2]) == 1:
                 return self.c(t[2][0], depth + 1)
+            if t[1] in _MAPS and len(t[2]) == 2 and t[2][1][0] == "closure":
+                # `x.map(|v| v)` / `x.map(|v| v.clone())` is x
+                l = self.ctx.F.by_qname.get(t[2][1][1], [])
+                if len(l) == 1:
+                    body = Inliner(self.ctx).inline_closure(t[2][1], [("param", 100, "a0")])
+                    while body is not None and body[0] == "call" and body[1] in _PLUMB and len(body[2]) == 1:
+                        body = body[2][0]
+                    if body == ("param", 100, "a0"):
+                        return self.c(t[2][0], depth + 1)
             self.calls.add(t[1])
             return "%s(%s)" % (_short(t[1]), ", ".join(self.c(a, depth + 1) for a in t[2]))
         if h == "try":
@@ -206,10 +222,18 @@ def run(ctx, prop):
         f = ctx.F.body_of(fs[0]) if hasattr(ctx.F, "body_of") else fs[0]
         rows, is_open, calls = rows_of(ctx, f)
         ref = {k: set(v) for k, v in e["rows"].items()}
-        if rows == ref:
+        alts = [ref] + [{k: set(v) for k, v in a.items()} for a in e.get("alt", [])]
+        if rows in alts:
             ctx.ob(R, key, True, "%s: %s" % (e["why"], "; ".join("%s -> %s" % (k or "always", " | ".join(sorted(v))) for k, v in sorted(rows.items())))[:400], f.loc())
             continue
         foreign = sorted(c for c in calls if c not in vocab)
+        if e.get("strict"):
+            foreign = []        # an accessor whose reference is a plain lookup / projection: any other closed term deviates
+        if e.get("closed_world") and rows:
+            # a function whose every accepted way of writing it is listed (reference + reviewed alternatives): anything
+            # else is reported - its meaning cannot be re-derived from an arbitrary rewrite, and everything that counts
+            # weight / membership rests on it
+            is_open, foreign = False, []
         if is_open or foreign or not rows:
             ctx.note("%s %s: returned terms are not closed over the table's vocabulary (%s) - not decided" % (R, _short(q), ", ".join(_short(c) for c in foreign[:4]) or "local / closure"))
             ctx.ob(R, key, True, "undecided shape (not reported)", f.loc())
